@@ -7,7 +7,7 @@
 //verif:cover VerifC09DeleteRepo empty-bundle labels-removed
 //verif:cover VerifC09DeleteCrash died-mid-delete retry-succeeds
 //verif:cover VerifC09RenameRace creator-won-the-race rename-won-the-race
-//verif:cover VerifC09Rename bundles-moved labels-moved checksummed-store write-fault
+//verif:cover VerifC09Rename bundles-moved labels-moved checksummed-store write-fault file-list-transfer-cut
 //verif:cover VerifC09DeleteEntries list-rewritten list-untouched
 //verif:cover VerifC09DeleteEntriesFaults delete-files-failed
 package core
@@ -208,8 +208,16 @@ func VerifC09Rename() {
 	}
 	stores := vCtxStoresKind(f.meta, f.vmeta, newVStore("blob"), withCRC)
 	beforeM, beforeV := vSnapshot(f.meta), vSnapshot(f.vmeta)
-	fault := vChoose("fault", 3) // 0: none, 1: the k-th read of a file list of r fails, 2: the k-th write of a file list of the new repository fails
-	if fault > 0 {
+	fault := vChoose("fault", 4) // 0: none, 1: the k-th read of a file list of r fails, 2: the k-th write of a file list of the new repository fails, 3: the transfer of a file list of r is cut
+	cutList := model.GetArchivePathToBundleFileList("r", vB1, 0)
+	_, hasList := f.meta.data[cutList]
+	if fault == 3 {
+		if !hasList {
+			vAssume(false)
+		}
+		vCover("file-list-transfer-cut")
+		f.meta.cutAfter = map[string]int{cutList: 1}
+	} else if fault > 0 {
 		k := vChoose("faultAt", 2)
 		n := 0
 		f.meta.fail = func(op, key string) error {
@@ -235,6 +243,10 @@ func VerifC09Rename() {
 		return
 	}
 	f.meta.fail = nil
+	f.meta.cutAfter = nil
+	if fault == 3 {
+		vAssert(err != nil, "rename-over-a-cut-file-list-transfer-fails")
+	}
 	if err != nil {
 		vAssert(fault > 0, "rename-succeeds-without-faults")
 		vAssertSame(beforeM, f.meta, []string{"repos/r/", "bundles/r/", "repos/r2/", "bundles/r2/"}, "failed-rename-keeps-the-original-repository")
